@@ -19,54 +19,70 @@ PROPERTY = "C08"
 LEVEL = "exploration"
 SHARDS = {"quick": 8, "thorough": 16}
 BUDGET = {"quick": 25.0, "thorough": 420.0}
-REQUIRE = {  # about 1/10 of what one quick run observes on the unchanged tree
-    "histories": 300,
-    "ops_applied": 8000,
-    "clause:focus_valid_child": 40000,
-    "clause:empty_no_focus": 4000,
-    "clause:contents_match_edits": 40000,
-    "clause:invalid_assign_rejected": 400,
-    "clause:valid_assign_taken": 400,
-    "clause:key_offer_on_path": 5000,
-    "clause:key_return_value": 2000,
-    "clause:key_handled_none": 70,
-    "clause:key_unmapped_unchanged": 250,
-    "clause:arrow_moved_selectable": 150,
-    "clause:selectable_after_mutation": 1000,
-    "clause:render_focus_canvas": 2500,
-    "clause:render_focus_calls": 2500,
-    "clause:path_restored": 150,
-    "clause:path_api_agrees": 8000,
-    "clause:set_focus_path_valid": 250,
-    "clause:set_focus_path_invalid": 100,
-    "leaves_drawn_focused": 2000,
-    "mouse_presses_that_moved_focus": 200,
-    "keys_that_moved_focus": 200,
-    "kind:pile": 12000,
-    "kind:cols": 10000,
-    "kind:grid": 9000,
-    "kind:frame": 4000,
-    "kind:overlay": 2500,
-    "kind:list": 4000,
-    "reach:widget.pile.Pile.keypress": 1500,
-    "reach:widget.columns.Columns.keypress": 1400,
-    "reach:widget.grid_flow.GridFlow.keypress": 600,
-    "reach:widget.frame.Frame.keypress": 500,
-    "reach:widget.overlay.Overlay.keypress": 300,
-    "reach:widget.listbox.ListBox.keypress": 450,
-    "reach:widget.pile.Pile.mouse_event": 350,
-    "reach:widget.columns.Columns.mouse_event": 250,
-    "reach:widget.frame.Frame.mouse_event": 100,
-    "reach:widget.listbox.ListBox.mouse_event": 100,
-    "reach:widget.container.WidgetContainerMixin.set_focus_path": 500,
-    "reach:widget.grid_flow.GridFlow._set_focus_from_display_widget": 200,
+REQUIRE = {  # about 1/20 of what one quick run observes on an idle machine (the workload is time-bounded, so volume drops under load)
+    "histories": 150,
+    "ops_applied": 4000,
+    "clause:focus_valid_child": 20000,
+    "clause:empty_no_focus": 2000,
+    "clause:contents_match_edits": 20000,
+    "clause:invalid_assign_rejected": 200,
+    "clause:valid_assign_taken": 200,
+    "clause:key_offer_on_path": 2500,
+    "clause:key_return_value": 1000,
+    "clause:key_handled_none": 35,
+    "clause:key_unmapped_unchanged": 125,
+    "clause:arrow_moved_selectable": 75,
+    "clause:selectable_after_mutation": 500,
+    "clause:render_focus_canvas": 1250,
+    "clause:render_focus_calls": 1250,
+    "clause:path_restored": 75,
+    "clause:path_api_agrees": 4000,
+    "clause:set_focus_path_valid": 125,
+    "clause:set_focus_path_invalid": 50,
+    "leaves_drawn_focused": 1000,
+    "mouse_presses_that_moved_focus": 100,
+    "keys_that_moved_focus": 100,
+    "edit_focus_at:last|pop()": 20,
+    "edit_focus_at:first|pop()": 15,
+    "edit_focus_at:middle|pop()": 9,
+    "edit_focus_at:only|pop()": 17,
+    "edit_focus_at:last|pop(i):-1": 6,
+    "edit_focus_at:last|pop(i):last": 7,
+    "edit_focus_at:last|del[i]:-1": 9,
+    "edit_focus_at:last|remove(item):last": 8,
+    "edit_focus_at:last|reverse()": 17,
+    "edit_focus_at:first|reverse()": 14,
+    "edit_focus_at:last|append": 8,
+    "edit_focus_at:last|extend": 8,
+    "edit_focus_at:last|iadd": 9,
+    "edit_focus_at:last|iadd_attr": 9,
+    "edit_focus_at:last|[:]=items": 15,
+    "edit_focus_at:middle|del[i]": 5,
+    "kind:pile": 6000,
+    "kind:cols": 5000,
+    "kind:grid": 4500,
+    "kind:frame": 2000,
+    "kind:overlay": 1250,
+    "kind:list": 2000,
+    "reach:widget.pile.Pile.keypress": 750,
+    "reach:widget.columns.Columns.keypress": 700,
+    "reach:widget.grid_flow.GridFlow.keypress": 300,
+    "reach:widget.frame.Frame.keypress": 250,
+    "reach:widget.overlay.Overlay.keypress": 150,
+    "reach:widget.listbox.ListBox.keypress": 225,
+    "reach:widget.pile.Pile.mouse_event": 175,
+    "reach:widget.columns.Columns.mouse_event": 125,
+    "reach:widget.frame.Frame.mouse_event": 50,
+    "reach:widget.listbox.ListBox.mouse_event": 50,
+    "reach:widget.container.WidgetContainerMixin.set_focus_path": 250,
+    "reach:widget.grid_flow.GridFlow._set_focus_from_display_widget": 100,
 }
 RULE = (
     "seeded recipes of Pile/Columns/GridFlow/Frame/Overlay/ListBox nestings (depth <= 4, box or flow sized, optional "
     "AttrMap/Padding/Filler/BoxAdapter decorations, 0..8 children, selectable/unselectable spy leaves with per-leaf "
     "handled-key sets) x op histories (20 quick / 40 thorough non-render ops) of navigation keys, characters, "
     "button-1 presses at random cells, valid/invalid focus_position and set_focus_path, contents insert/append/+=/"
-    "del/pop/remove/item and slice assignment/clear/contents=, Frame part replace/remove, Overlay part replace, "
+    "del/pop()/pop(i)/remove/reverse/item and slice assignment/[:]=/clear/contents=/contents+= (half of them right after putting the focus on the first, last or middle child), Frame part replace/remove, Overlay part replace, "
     "get_focus_path save/restore, renders at 4 sizes; a case = (tree recipe, op list); distinct = distinct such pairs; "
     "non-trivial = at least one op applied to a tree with >= 1 container"
 )
@@ -79,7 +95,7 @@ ASSUMES = [
     "Frame body is never removed (documented as required); Frame focus_part is never constructed naming a missing part",
     "histories in which urwid emits a WidgetWarning are cut at that op and the op is not judged (library-defined input domain)",
     "leaf selectability is constant; a parent's selectable() is judged only right after ITS OWN contents were edited",
-    "an exception escaping render/keypress/mouse_event/a valid edit is by-catch, not a C08 verdict (the statement is about focus state): it is counted (bycatch:*), listed under bycatch_crashes_not_judged and ends the history",
+    "an exception escaping render/keypress/mouse_event/a valid edit is by-catch, not a C08 verdict (the statement is about focus state): it is counted (bycatch:*), listed under bycatch_crashes_not_judged and ends the history; but after a valid edit that raised, the shadow is re-read from contents and every clause is evaluated once more on the state left behind (tag after:edit-raised)",
     "the last rendered root canvas is kept alive between ops (as a display does), so CanvasCache is effective and a focus change that is not followed by invalidation shows up in the next canvas",
     "'rendered with focus' is read from the finished canvas (per-leaf focus glyph) and from the leaves' render(focus=True) calls; both are compared with the focus path walked by hand after the render",
 ]
@@ -408,7 +424,7 @@ class Session:
                 f = n.base.focus
             except Exception as e:  # noqa: BLE001
                 f = f"<{type(e).__name__}>"
-            snap[n.cid] = (p, id(f) if f is not None else None, f)
+            snap[n.cid] = (p, f if isinstance(f, str) else (id(f) if f is not None else None), f)
         return snap
 
     @staticmethod
@@ -742,7 +758,7 @@ class Session:
                 if n.kind in ("leaf", "list") or n.cid not in before or n.cid not in after:
                     continue
                 b4, af = before[n.cid], after[n.cid]
-                if b4[1] == af[1] or af[1] is None:
+                if b4[1] == af[1] or af[1] is None or isinstance(af[2], str):
                     continue
                 self.c("clause:arrow_moved_selectable")
                 self.c(f"arrow_moved:{n.kind}")
@@ -979,10 +995,10 @@ class Session:
             return nodes, [self.mk_item(n, c, o) for c, (_r, o) in zip(nodes, specs)]
 
         def done(opname):
-            self.c(f"edit_focus_at:{where}|{opname}")
             return self.after_mutation(n, opname)
 
         def mg(opname, fn, *a):
+            self.c(f"edit_focus_at:{where}|{opname}")  # counted at the attempt
             return self.mguard(n, opname, fn, *a)
 
         def iadd_attr(its):
